@@ -312,7 +312,7 @@ func (c *Conn) writeLocked(p []byte, first bool) (n int, err error, wait chan st
 	if c.closed {
 		return 0, &net.OpError{Op: "write", Net: "sim", Err: net.ErrClosed}, nil, dl
 	}
-	if first {
+	if first && !c.broken { // nothing more reaches the server once the connection is broken
 		if f := c.fault("write"); f != nil {
 			n := int(f.Frac * float64(len(p)))
 			if n >= len(p) {
